@@ -640,6 +640,17 @@ class _SetOperation(Selectable, Term):  # type:ignore[misc]
         # Default to the base query's dialect and quote_char
         return self.get_sql(self.base_query.QUERY_CLS.SQL_CONTEXT)
 
+    def __eq__(self, other: Any) -> bool:  # type:ignore[override]
+        # like QueryBuilder: a row source is identified by its alias (Term.__eq__ would build a criterion,
+        # which is always truthy, so "x in [set_operation]" was true for every x)
+        return isinstance(other, _SetOperation) and self.alias == other.alias
+
+    def __ne__(self, other: Any) -> bool:  # type:ignore[override]
+        return not self.__eq__(other)
+
+    def __hash__(self) -> int:
+        return hash(self.alias)
+
     def get_sql(self, ctx: SqlContext) -> str:
         set_operation_template = " {type} {query_string}"
 
